@@ -76,10 +76,10 @@ func ruleR12a(c *Check) {
 			return true, "selection package"
 		case engine.InPackage(top, "model") && top.Name() == "Select":
 			return true, "the Select method"
-		case engine.InPackage(top, "cmd/cmds") && strings.Contains(c.P.FuncName(fn), "init$"):
-			// tabled: the graph command selects for display and never executes
-			if isGraphCommand(c, fn) {
-				return true, "graph command (display only, never followed by Execute)"
+		case engine.InPackage(top, "cmd/cmds"):
+			// display-only selection: no command from which this code is reachable can also start the executor
+			if displayOnly(c, fn) {
+				return true, "a command that never starts the executor (selection for display only)"
 			}
 		}
 		return false, ""
@@ -109,6 +109,23 @@ func ruleR12a(c *Check) {
 			c.Require(ok, "R12a", "select-owner/"+c.P.FuncName(st.Parent())+"/"+key.String(), "IsSelected stored by "+why, "IsSelected is set outside the selection package", c.P.InstrPos(st))
 		}
 	}
+}
+
+// displayOnly: every CLI entry point that can reach fn cannot reach Executor.Execute.
+func displayOnly(c *Check, fn *ssa.Function) bool {
+	exec := c.P.Func("execution", "Executor", "Execute")
+	n := 0
+	for _, root := range c.G.CobraRunFuncs() {
+		r := c.G.ReachableFuncs([]*ssa.Function{root}, nil)
+		if !r[fn] && !r[engine.TopFunc(fn)] && root != fn {
+			continue
+		}
+		n++
+		if exec != nil && r[exec] {
+			return false
+		}
+	}
+	return n > 0
 }
 
 func isGraphCommand(c *Check, fn *ssa.Function) bool {
@@ -193,6 +210,20 @@ func ruleR12b(c *Check) {
 	if isLoadOfFieldDeep(lp.RangedValue(), fInEdges) {
 		fullDeps = true
 	}
+	// an explicit stack of frames: the neighbour list kept in a pushed frame is GetDependencies(node)
+	if app, ok := recSite.(*ssa.Call); ok && !fullDeps {
+		for _, a := range app.Call.Args[1:] {
+			for _, fv := range frameFieldValues(a) {
+				if call, _ := engine.CallOf(fv); call != nil {
+					for _, f := range c.G.Callees[call] {
+						if f == getDeps {
+							fullDeps = true
+						}
+					}
+				}
+			}
+		}
+	}
 	c.Require(fullDeps, "R12b", "closure-over-all-dependencies/"+aname, "the closure ranges over GetDependencies(node): every dependency kind, aliases included", "the dependency closure ranges over a filtered view of the dependencies (e.g. targets only): a dependency reached through an alias is not selected and platform errors behind it are missed", c.P.InstrPos(recSite))
 	// each iteration: error return, or Select(elem) + recursion, or already selected
 	sels := selectCalls(anc)
@@ -206,6 +237,10 @@ func ruleR12b(c *Check) {
 	}
 	toHeader := func(in ssa.Instruction) bool { return in == lp.Header.Instrs[0] }
 	seenCut := engine.CutEdgesWhere(func(a engine.Atom) bool {
+		// a frame of an explicit stack is exhausted: nothing to select in this round
+		if isListExhaustedAtom(a) && lp.RangedValue() == nil {
+			return true
+		}
 		call, _ := engine.CallOf(a.V)
 		return a.Op == "true" && call != nil && call.Common().IsInvoke() && call.Common().Method.Name() == "GetIsSelected"
 	})
